@@ -19,7 +19,7 @@ RULE = ("seeded programs (as C16 plus fan-out, integer/bool intermediates, list 
         "equals the std of independently captured tensors ('n/a' only where nothing flowed). (5) 60% of the modules have some / all parameters frozen or turned into float buffers: requires_grad of every parameter, "
         "buffer and output is compared before/after tracking. (6) every tracked module is run a SECOND "
         "time, forward-only, on new data: no stale backward metrics, refreshed forward metrics. Non-trivial = graph has >= 3 float nodes and (fan-out or backward run); "
-        "distinct = emitted source x run mode. Half of the forward-only runs execute under torch.no_grad().")
+        "distinct = emitted source x run mode. Half of the forward-only runs execute under torch.no_grad(). Programs may contain in-place ops spelled as functions and used as statements (F.relu(t, inplace=True), torch.relu_(t), torch.clamp_(t, min=0)); a quarter of the cases make a rejected call first.")
 ASSUMPTIONS = ["the captured GraphModule re-executed by a plain fx.Interpreter reproduces the tensors that flowed (deterministic ops only: dropout p=0)"]
 IMPORTS = ["unit_scaling.transforms._track_scales", "unit_scaling.utils", "unit_scaling.transforms"]
 REQUIRED_MONITORS = ["tracked:bit-compared", "metrics:nodes-compared-fwd", "metrics:nodes-compared-bwd", "contract:Metrics.from_tensor",
